@@ -374,7 +374,9 @@ def _sam_envelope(offset, samples, fs, depth, fm, delay, eq_phase, eq_power):
     delay_n = int(np.round(delay_n))
     sam_n = samples-delay_n
 
-    sam_offset = offset-delay_n
+    # Modulation time is zero at the end of the delay regardless of which
+    # fragment (offset, samples) of the envelope is being generated.
+    sam_offset = offset+delay_n-int(delay*fs)
     t = (np.arange(sam_n, dtype=np.double) + sam_offset)/fs
     sam_envelope = depth/2.0*np.cos(2.0*np.pi*fm*t+eq_phase)+1.0-depth/2.0
 
